@@ -709,9 +709,11 @@ func (ex *Exec) pureAxiom(fn *ssa.Function, ct *Contract, name string, rt types.
 	env.vars["result"] = Term{S: app, T: rt}
 	env.vars["ret0"] = Term{S: app, T: rt}
 	ex.vc.noDefine++
+	savedProbing := ex.probing
+	ex.probing = 0 // the axiom is a background fact, independent of any probing expansion in progress
 	var pres, posts []string
 	func() {
-		defer func() { ex.vc.noDefine-- }()
+		defer func() { ex.vc.noDefine--; ex.probing = savedProbing }()
 		for _, r := range ct.Requires {
 			pres = append(pres, env.evalTerm(r.Expr, types.Typ[types.Bool]).S)
 		}
